@@ -352,7 +352,8 @@ def run_symbolic(p: Proof, case, timeout_s: float, job_timeout_s: float, seed: i
                           rec["text"] = r["text"][:300]
                   # cover: the path that reaches this clause is satisfiable
                   if not rec["cover"]:
-                      rec["cover"] = _cover(pc, rng, p.scale)
+                      lem = set(x.id for x in info.get("_lemmas", ()))
+                      rec["cover"] = _cover([c for c in pc if c.id not in lem], rng, p.scale)
           out["feasibility_calls"] = feas.calls
     except Timeout:
         out["error"] = f"undecided: job timeout after {job_timeout_s}s"
